@@ -53,6 +53,8 @@ def run_shard(spec, M):
             R = doccheck.make_doc(seed, fam, i, **kw)
             case = {"kind": "doc", "family": fam, "index": i, "seed": seed, "text": R.text if len(R.text) < 20000 else R.text[:20000], "kw": kw}
             doccheck.check_doc(R, M, case, "C04", reused=reused)
+            if i % 25 == 0:
+                scanner_twice(R.text, M, case)
             if i % 499 == 0:
                 M.sample({"dialect": R.dialect, "text": short(R.text, 300)})
     elif fam == "thresholds":
@@ -109,6 +111,28 @@ def run_shard(spec, M):
             if got != want:
                 M.violation("C04.corpus", {"what": "error locations differ from the golden .errors.ndjson", "path": b["path"],
                                            "got": got[:3], "want": want[:3]}, case)
+
+
+def scanner_twice(text, M, case):
+    """The same TokenScanner object handed to parse twice: whatever the second parse returns (today: the empty document,
+    because the scanner is exhausted) must carry exact locations — i.e. be empty or equal the first result."""
+    from gherkin.parser import Parser
+    from gherkin.token_scanner import TokenScanner
+    from gherkin.errors import ParserError
+    try:
+        sc = TokenScanner(text)
+        a = Parser().parse(sc)
+        b = Parser().parse(sc)
+    except ParserError:
+        return
+    except Exception:
+        return          # F1-like inputs are decided elsewhere
+    M.count("scanner_objects_parsed_twice")
+    if "feature" in b:
+        bad = observe.g5_location_slices(b, text) or (doccheck.strip(b) != doccheck.strip(a) and [("G5", {"what": "second parse differs"})])
+        if bad:
+            M.violation("C04.rescan", {"what": "a TokenScanner object parsed a second time yields locations that do not point into the source",
+                                       "detail": bad[0][1]}, dict(case, rescan=True))
 
 
 def check_noisy(L, text, M, case):
